@@ -51,6 +51,8 @@ type provider struct {
 	msAdd  *ssa.Function
 	msRem  *ssa.Function
 	msRemH *ssa.Function
+	// further MemberSet methods that insert / delete exactly their argument (addIfAbsent, removeIfPresent ...)
+	adders, removers map[*ssa.Function]bool
 	eSend  *ssa.Function
 	memo   map[string]bool
 }
@@ -158,11 +160,45 @@ func (pv *provider) reportedAfter(fn *ssa.Function, n int, depth int) bool {
 	if !ok || len(sites) == 0 {
 		return false
 	}
+	// a helper that tells its caller whether it changed anything: after the change it returns true only
+	onlyTrue := len(g.returns) > 0
+	fromN := g.reach(g.succ[n], nil, nil)
+	for _, x := range g.returns {
+		if !fromN[x] {
+			continue
+		}
+		rs := g.ins[x].(*ssa.Return).Results
+		if len(rs) != 1 {
+			onlyTrue = false
+			continue
+		}
+		if k, isK := rs[0].(*ssa.Const); !isK || k.Value == nil || k.Value.ExactString() != "true" {
+			onlyTrue = false
+		}
+	}
 	for _, c := range sites {
 		cf := c.Parent()
 		cg := w.FGI(cf)
 		ci, in := cg.idx[c]
-		if !in || !pv.reportedAfter(cf, ci, depth+1) {
+		if !in {
+			return false
+		}
+		if onlyTrue {
+			if onTrue, _, okB := w.boolTestAfter(cg, c); okB {
+				rep := pv.sendNodes(cf, isAgentTarget, 0)
+				rr := cg.reach([]int{onTrue}, rep, nil)
+				bad := false
+				for _, x := range cg.returns {
+					if rr[x] {
+						bad = true
+					}
+				}
+				if !bad {
+					continue
+				}
+			}
+		}
+		if !pv.reportedAfter(cf, ci, depth+1) {
 			return false
 		}
 	}
@@ -186,17 +222,20 @@ func (pv *provider) changeSites() []changeSite {
 		g := pv.w.FGI(fn)
 		for i, in := range g.ins {
 			c, isCall := in.(*ssa.Call)
-			if !isCall || g.inl[i] {
+			if !isCall {
 				continue
 			}
 			callee := c.Call.StaticCallee()
-			if callee == nil || (callee != pv.msAdd && callee != pv.msRem && callee != pv.msRemH) || len(c.Call.Args) < 2 {
+			if callee == nil || (!pv.adders[callee] && !pv.removers[callee]) || len(c.Call.Args) < 2 {
+				continue
+			}
+			if g.inl[i] && (callee == pv.msAdd || callee == pv.msRem || callee == pv.msRemH) {
 				continue
 			}
 			if !ownSet(pv.w.pathOf(c.Call.Args[0])) {
 				continue
 			}
-			out = append(out, changeSite{fn, i, c, callee == pv.msAdd})
+			out = append(out, changeSite{fn, i, c, pv.adders[callee]})
 		}
 	}
 	return out
@@ -208,14 +247,17 @@ func (pv *provider) changesUnder(g *FG, fn *ssa.Function, edges []Edge, add bool
 	w := pv.w
 	for i, in := range g.ins {
 		c, isCall := in.(*ssa.Call)
-		if !isCall || g.inl[i] || (edges != nil && !g.OnlyVia(edges, i)) {
+		if !isCall || (edges != nil && !g.OnlyVia(edges, i)) {
 			continue
 		}
 		callee := c.Call.StaticCallee()
 		if callee == nil {
 			continue
 		}
-		if (add && callee == pv.msAdd) || (!add && (callee == pv.msRem || callee == pv.msRemH)) {
+		if g.inl[i] && !((pv.adders[callee] || pv.removers[callee]) && callee != pv.msAdd && callee != pv.msRem && callee != pv.msRemH) {
+			continue
+		}
+		if (add && pv.adders[callee]) || (!add && pv.removers[callee]) {
 			if len(c.Call.Args) >= 2 && ownSet(w.pathOf(c.Call.Args[0])) {
 				visit(i, w.pathOf(c.Call.Args[1]), w.pathOf(c.Call.Args[0]), "")
 			}
@@ -243,6 +285,53 @@ func checkC20Membership(w *World, r *Report, recv *ssa.Function, smT interface{}
 	pv.msAdd = w.Method("cluster", "MemberSet", "Add")
 	pv.msRem = w.Method("cluster", "MemberSet", "Remove")
 	pv.msRemH = w.Method("cluster", "MemberSet", "RemoveByHost")
+	pv.adders, pv.removers = map[*ssa.Function]bool{pv.msAdd: true}, map[*ssa.Function]bool{pv.msRem: true, pv.msRemH: true}
+	{
+		// other MemberSet methods that do to the map exactly what Add / Remove do with their argument
+		restore := w.noCtx()
+		for _, m := range w.MethodsOf("cluster", "MemberSet") {
+			if m.Parent() != nil || len(m.Params) != 2 || pv.adders[m] || pv.removers[m] || len(m.Blocks) == 0 {
+				continue
+			}
+			mg := w.FG(m)
+			na, nd, other := 0, 0, 0
+			for _, in := range mg.ins {
+				switch x := in.(type) {
+				case *ssa.MapUpdate:
+					if w.pathOf(x.Map) == "P0.members" && w.pathOf(x.Key) == "P1.ID" && w.pathOf(x.Value) == "P1" {
+						na++
+					} else {
+						other++
+					}
+				case *ssa.Call:
+					if args, isD := isBuiltinCall(x, "delete"); isD {
+						if w.pathOf(args[0]) == "P0.members" && w.pathOf(args[1]) == "P1.ID" {
+							nd++
+						} else {
+							other++
+						}
+					}
+					if f := x.Call.StaticCallee(); f != nil && len(x.Call.Args) == 2 && w.pathOf(x.Call.Args[0]) == "P0" && w.pathOf(x.Call.Args[1]) == "P1" {
+						if f == pv.msAdd {
+							na++
+						}
+						if f == pv.msRem {
+							nd++
+						}
+					}
+				case *ssa.Go, *ssa.Defer:
+					other++
+				}
+			}
+			if other == 0 && na > 0 && nd == 0 {
+				pv.adders[m] = true
+			}
+			if other == 0 && nd > 0 && na == 0 {
+				pv.removers[m] = true
+			}
+		}
+		restore()
+	}
 	pv.eSend = w.Method("actor", "Engine", "Send")
 	g := w.FGI(recv)
 	site := w.fnPos(recv)
@@ -399,8 +488,23 @@ func checkC20Membership(w *World, r *Report, recv *ssa.Function, smT interface{}
 					readAt = g.idx[si]
 				}
 			}
-			if !anyOf(added) || !g.Before(added, readAt) {
+			if !anyOf(added) {
 				ok, detail = false, "the member list is read before the handshaking peer was added: the peer does not learn about itself / the agent is not told"
+			} else if !g.Before(added, readAt) {
+				// written out in the case: `if !members.Contains(m) { members.Add(m) }` — where the set already contains the
+				// peer nothing has to be added
+				known, _ := w.callEdges(g, "call:(*cluster.MemberSet).Contains(P0.members,assert<*cluster.Handshake>(")
+				cut := map[Edge]bool{}
+				for _, e := range known {
+					cut[e] = true
+				}
+				var starts []int
+				for _, e := range hs {
+					starts = append(starts, e.to)
+				}
+				if len(known) == 0 || g.reach(starts, added, cut)[readAt] {
+					ok, detail = false, "the member list is read before the handshaking peer was added: the peer does not learn about itself / the agent is not told"
+				}
 			}
 		}
 		if ok && nReply == 0 {
@@ -460,8 +564,13 @@ func checkC20Membership(w *World, r *Report, recv *ssa.Function, smT interface{}
 						okM = false
 					}
 				}
+				knownM, _ := w.callEdges(g, "call:(*cluster.MemberSet).Contains(P0.members,assert<*cluster.Members>(")
+				cutM := map[Edge]bool{}
+				for _, e := range knownM {
+					cutM[e] = true
+				}
 				for _, e := range bound {
-					ri := g.reach([]int{e.to}, addedM, nil)
+					ri := g.reach([]int{e.to}, addedM, cutM)
 					if ri[e.from] {
 						okM = false
 					}
@@ -562,7 +671,7 @@ func (pv *provider) checkAddsEach(r *Report, addM *ssa.Function) {
 			for _, fn := range pv.funcs {
 				hg := w.FG(fn)
 				for i, in := range hg.ins {
-					if c, ok := in.(*ssa.Call); ok && c.Call.StaticCallee() == pv.msAdd && len(c.Call.Args) >= 2 && ownSet(w.pathOf(c.Call.Args[0])) {
+					if c, ok := in.(*ssa.Call); ok && pv.adders[c.Call.StaticCallee()] && len(c.Call.Args) >= 2 && ownSet(w.pathOf(c.Call.Args[0])) {
 						adds = append(adds, addSite{fn, i, c})
 					}
 				}
